@@ -204,11 +204,6 @@ Proof. induction l as [|y l IH]; cbn; intros H; [exact H|]. inversion H; auto. Q
 Lemma firstn_incl {A} n (l : list A) x : In x (firstn n l) -> In x l.
 Proof. intros H. rewrite <- (firstn_skipn n l). apply in_or_app. auto. Qed.
 
-Definition finish_remove (g2 : graph) (l s : list node) : result graph :=
-  if list_eqb Nat.eqb l (firstn (List.length l) s)
-  then Ok (set_sorted g2 (Some (skipn (List.length l) s)))
-  else s' <- remove_all l s ;; sorting (set_sorted g2 (Some s')) s'.
-
 Lemma finish_remove_uses g2 l s g' x : finish_remove g2 l s = Ok g' -> In x l -> In x s.
 Proof.
   unfold finish_remove. destruct (list_eqb Nat.eqb l (firstn (List.length l) s)) eqn:E.
@@ -237,33 +232,19 @@ Proof.
     + apply nonempty_perm. eapply Permutation_app_inv_l. rewrite <- Hr. exact (proj1 Hok).
 Qed.
 
-Lemma remove_nodes_unfold g l c :
-  remove_nodes g l c =
-  (g1 <- foldM (mark_removed c) l g ;; gs <- sorted_nodes g1 ;; finish_remove (fst gs) l (snd gs)).
-Proof. reflexivity. Qed.
-
 Lemma remove_nodes_inv g l c g' : inv g -> remove_nodes g l c = Ok g' -> inv g'.
 Proof.
-  intros [Hnd [Hk Hs]]. rewrite remove_nodes_unfold. intros H.
+  intros [Hnd [Hk Hs]]. unfold remove_nodes. intros H.
   apply bind_ok in H. destruct H as [g1 [Hm H]].
   destruct (mark_removed_all _ _ _ _ Hm) as [Pn [Ep [_ [_ [Es _]]]]].
   assert (Hnd1 : NoDup (l ++ g_nodes g1)) by (eapply Permutation_NoDup; eauto).
-  apply bind_ok in H. destruct H as [[g2 s] [Hsn H]]. cbn [fst snd] in H.
-  unfold sorted_nodes in Hsn. destruct (g_sorted g1) as [s0|] eqn:Hs1.
-  - inversion Hsn; subst g2 s0. clear Hsn.
-    eapply finish_remove_inv; [exact Hnd1|rewrite Ep; exact Hk| |exact H].
+  destruct (g_sorted g1) as [s|] eqn:Hs1.
+  - eapply finish_remove_inv; [exact Hnd1|rewrite Ep; exact Hk| |exact H].
     rewrite Ep. destruct (Hs s (eq_sym Es)) as [Hp Hb]. split.
     + rewrite Hp. exact Pn.
     + intros a b Ha Hb'. apply Hb; (eapply Permutation_in; [symmetry; exact Pn|assumption]).
-  - apply bind_ok in Hsn. destruct Hsn as [g2' [Hsort Hsn]]. inversion Hsn; subst g2 s. clear Hsn.
-    eapply sorting_inv in Hsort; [|eapply nodup_app_r; eauto|rewrite Ep; exact Hk|cbn; reflexivity].
-    destruct Hsort as [[Hnd2 [Hk2 Hs2]] [l0 ->]]. cbn in *.
-    destruct l as [|x l].
-    + apply (finish_remove_inv (set_sorted g1 (Some l0)) [] l0 g'); cbn; [exact Hnd2|exact Hk2|apply Hs2; reflexivity|exact H].
-    + exfalso. assert (Hx : In x l0) by (eapply finish_remove_uses; [exact H|left; reflexivity]).
-      destruct (Hs2 l0 eq_refl) as [Hp _].
-      eapply (nodup_app_disj (x :: l) (g_nodes g1) x); [exact Hnd1|left; reflexivity|].
-      eapply Permutation_in; eauto.
+  - inversion H; subst g'. split; [eapply nodup_app_r; eauto|]. split; [rewrite Ep; exact Hk|].
+    rewrite Hs1. discriminate.
 Qed.
 
 (* ---- removing connections: the predecessors dictionary only loses entries *)
@@ -351,20 +332,16 @@ Proof.
   intros s x s' _. apply remove_previous_one_inv.
 Qed.
 
-Lemma remove_successor_inv g nd g' : inv g -> remove_successor g nd = Ok g' -> inv g'.
-Proof.
-  unfold remove_successor. intros Hi. destruct (memb nd (g_nodes g)).
-  - intros H. apply bind_ok in H. destruct H as [g1 [H1 H]].
-    eapply remove_previous_connections_inv; [|exact H]. eapply remove_nodes_inv; eauto.
-  - intros H. inversion H; subst. exact Hi.
-Qed.
-
 Lemma remove_successors_nodes_inv g n g' : inv g -> remove_successors_nodes g n = Ok g' -> inv g'.
 Proof.
   unfold remove_successors_nodes. intros Hi H.
   apply bind_ok in H. destruct H as [all [_ H]]. apply bind_ok in H. destruct H as [g1 [H1 H]].
-  apply (foldM_inv remove_successor inv all (fun s x s' _ => remove_successor_inv s x s') g1 g'); [|exact H].
-  eapply remove_nodes_connections_inv; eauto.
+  apply bind_ok in H. destruct H as [g2 [H2 H]].
+  eapply (foldM_inv (fun g nd => remove_previous_connections g [nd]) inv); [| |exact H].
+  - intros s x s' _. apply remove_previous_connections_inv.
+  - eapply (foldM_inv (fun g nd => remove_nodes g [nd] false) inv); [| |exact H2].
+    + intros s x s' _. apply remove_nodes_inv.
+    + eapply remove_nodes_connections_inv; eauto.
 Qed.
 
 Lemma sorted_nodes_inv g g' s : inv g -> sorted_nodes g = Ok (g', s) -> inv g'.
@@ -373,6 +350,12 @@ Proof.
   - intros H. inversion H; subst. exact Hi.
   - intros H. apply bind_ok in H. destruct H as [g1 [H1 H]]. inversion H; subst g'.
     destruct Hi as [Hnd [Hk _]]. eapply sorting_inv in H1; [exact (proj1 H1)|exact Hnd|exact Hk|reflexivity].
+Qed.
+
+Lemma copy_graph_inv g : inv g -> inv (copy_graph g).
+Proof.
+  intros Hi. unfold copy_graph. destruct (g_sorted g) as [[|x s]|]; try exact Hi.
+  destruct Hi as [Hnd [Hk _]]. split; [exact Hnd|]. split; [exact Hk|]. cbn. discriminate.
 Qed.
 
 Lemma step_inv g o g' : inv g -> step g o = Ok g' -> inv g'.
@@ -387,7 +370,7 @@ Proof.
   - intros H. destruct Hi as [Hnd [Hk _]]. eapply sorting_inv in H; [exact (proj1 H)|exact Hnd|exact Hk|reflexivity].
   - intros H. apply bind_ok in H. destruct H as [[g1 s] [H1 H]]. inversion H; subst g'.
     eapply sorted_nodes_inv; eauto.
-  - intros H. inversion H; subst. exact Hi.
+  - intros H. inversion H; subst. apply copy_graph_inv, Hi.
 Qed.
 
 Lemma run_inv g ops g' : inv g -> run g ops = Ok g' -> inv g'.
